@@ -1,5 +1,6 @@
 import VelaVerif.Spec.Requant
 import VelaVerif.Spec.SoftmaxKernel
+import VelaVerif.Spec.StridedSliceRef
 /-!
 # Integer reference semantics of quantised TensorFlow Lite operators (specification side)
 
@@ -803,8 +804,19 @@ def evalOp (g : Graph) (env : Env) (op : OpDef) : Except String (List Tensor) :=
     (List.range num).mapM fun k =>
       slice a ((List.replicate a.shape.length 0).set axis (k * part)) (a.shape.set axis part)
   | "STRIDED_SLICE" =>
-    -- params: group 0 = begin, group 1 = end (already resolved), group 2 = strides (absent = 1)
+    -- params: group 0 = begin, group 1 = end, group 2 = strides, group 3 = [begin_mask, end_mask, ellipsis_mask,
+    -- new_axis_mask, shrink_axis_mask, offset]: the raw slice specification of the file, resolved here by the transcription
+    -- of the TFLite reference (Spec/StridedSliceRef.lean). Without group 3: begin / end already resolved (strides absent = 1).
     let a ← getIn env op 0
+    if !(grp op 3).isEmpty then
+      let spec : StridedSliceRef.Spec :=
+        { begin := grp op 0, end_ := grp op 1, strides := grp op 2, beginMask := pN op 3 0, endMask := pN op 3 1,
+          ellipsisMask := pN op 3 2, newAxisMask := pN op 3 3, shrinkAxisMask := pN op 3 4, offset := pI op 3 5 ≠ 0 }
+      let (shp, dat) ← StridedSliceRef.eval spec a.shape a.data
+      let os := g.shape (outId op 0)
+      if shp ≠ os then throw s!"strided_slice: the specification yields shape {shp}, the result tensor has {os}"
+      if dat.size = 0 then throw "unsupported:STRIDED_SLICE:empty"
+      return [{ shape := os, data := dat }]
     let b := (grp op 0).map Int.toNat
     let e := (grp op 1).map Int.toNat
     let st := if (grp op 2).isEmpty then b.map (fun _ => 1) else (grp op 2).map Int.toNat
